@@ -171,3 +171,110 @@ def _pandas_standin(seed=0, tier="quick"):
 
 
 PandasDropInvalidRows.bounded_standin = staticmethod(_pandas_standin)
+
+
+# ---------------------------------------------------------------------------------------
+# polars
+# ---------------------------------------------------------------------------------------
+from pyvc.theories import polars_lite as PP  # noqa: E402
+
+
+class PolarsDropInvalidRows(Contract):
+    """PolarsSchemaBackend.drop_invalid_rows: AND-fold of the check outputs of the collected errors.
+    rows(result) == [ r : every error that HAS a row-aligned boolean check output marks r as True ], order and values kept.
+    Proved for all frames (any number of rows) and for m in {0,1,2,3} collected errors (case split over m: the number of
+    errors is a bound of this obligation; the fold over columns is unrolled by pl.fold's model)."""
+
+    target = "pandera.backends.polars.base:PolarsSchemaBackend.drop_invalid_rows"
+    split = {"m": [0, 1, 2, 3]}
+    raises = ()
+
+    def setup(self, I):
+        PL.install(I)
+        PP.install(I)
+
+    def make_args(self):
+        from pandera.api.base.error_handler import ErrorHandler
+        from pyvc.heap import ListObj
+
+        m = self.fixed.get("m", 1)
+        obj = PP.FrameP.fresh("check_obj", columns=("a",), kind="LazyFrame")
+        errs, outs = ListObj(), []
+        for j in range(m):
+            e = Obj(None, f"err{j}", pre=True, fields=dict(schema=T.Ref(None, name=T.Opt(T.Str)), check_index=T.Opt(T.Int), check=T.Any, reason_code=T.Any))
+            has = cur().choose([("row_output", None), ("no_output", None)], f"err{j}.check_output")
+            if has == 0:
+                f = z3.Function(cur().fresh_name(f"out{j}"), z3.IntSort(), z3.BoolSort())
+                nf = z3.Function(cur().fresh_name(f"out{j}_null"), z3.IntSort(), z3.BoolSort())
+                co = PP.FrameP(obj.space, {"check_output": PP.Col(lambda i, f=f: SBool(f(i)), lambda i, nf=nf: nf(i), "bool")}, kind="DataFrame")
+                outs.append((f, nf))
+            else:
+                co = None
+            e.attrs["check_output"] = co
+            e.attrs0["check_output"] = co
+            errs.append(e)
+        eh = Obj(ErrorHandler, "error_handler", pre=True)
+        eh.attrs["_schema_errors"] = errs
+        eh.attrs0["_schema_errors"] = errs
+        cur().ghost["outs"] = outs
+        return {"self": T.Ref(None).fresh("self"), "check_obj": obj, "error_handler": eh}
+
+    def call_target(self, I, fn, a):
+        return I.call(fn, [a["self"], a["check_obj"], a["error_handler"]], {})
+
+    def ensures(self, result, old, self_, check_obj, error_handler):
+        out = {"same_frame_kind": isinstance(result, PP.FrameP) and result.space is check_obj.space and result.kind == check_obj.kind}
+        if not out["same_frame_kind"]:
+            return out
+        i = z3.Int(cur().fresh_name("row"))
+        keep = z3.And(*[z3.And(z3.Not(nf(i)), f(i)) for f, nf in cur().ghost["outs"]]) if cur().ghost["outs"] else z3.BoolVal(True)
+        out["kept_iff_every_row_level_check_holds"] = SBool(result.sel(i) == z3.And(check_obj.sel(i), keep))
+        out["columns_unchanged"] = list(result.cols) == list(check_obj.cols) and all(result.cols[c] is check_obj.cols[c] for c in result.cols)
+        return out
+
+
+CONTRACTS.append(PolarsDropInvalidRows)
+
+
+def _polars_standin(seed=0, tier="quick"):
+    """bounded stand-in (never counted as proof): the contract evaluated on the real function; errors may share the same
+    schema component and check index (several core checks of one column fail at once)."""
+    import random
+
+    import polars as pl
+
+    from pandera.api.base.error_handler import ErrorHandler
+    from pandera.backends.polars.base import PolarsSchemaBackend
+    from pandera.errors import SchemaError, SchemaErrorReason
+    import pandera.polars as pap
+
+    rng = random.Random(seed)
+    n_cases = 300 if tier == "quick" else 3000
+    be = PolarsSchemaBackend()
+    for case in range(n_cases):
+        n = rng.randint(1, 6)
+        lf = pl.LazyFrame({"a": [rng.randint(-3, 3) for _ in range(n)]})
+        m = rng.randint(0, 3)
+        col = pap.Column(int, name="a")
+        errs, masks = [], []
+        for j in range(m):
+            mask = [rng.random() < 0.6 for _ in range(n)]
+            masks.append(mask)
+            errs.append(SchemaError(schema=col, data=None, message="m", check="not_nullable" if rng.random() < 0.5 else "field_uniqueness",
+                                    check_index=rng.choice([None, None, 0, 1]), check_output=pl.DataFrame({"check_output": mask}),
+                                    reason_code=SchemaErrorReason.SERIES_CONTAINS_NULLS))
+        eh = ErrorHandler(lazy=True)
+        eh._schema_errors = errs
+        try:
+            out = be.drop_invalid_rows(lf, eh).collect()["a"].to_list()
+        except Exception as e:  # noqa
+            return {"examples": case + 1, "bound": f"{n_cases} frames <= 6 rows, <= 3 errors", "failing_input": {"masks": masks}, "observed": f"raised {type(e).__name__}: {e}"}
+        want = [v for i, v in enumerate(lf.collect()["a"].to_list()) if all(mk[i] for mk in masks)]
+        if out != want:
+            return {"examples": case + 1, "bound": f"{n_cases} frames <= 6 rows, <= 3 errors",
+                    "failing_input": {"a": lf.collect()["a"].to_list(), "check_outputs": masks, "check_index": [e.check_index for e in errs]},
+                    "observed": {"rows_returned": out, "rows_expected": want}}
+    return {"examples": n_cases, "bound": f"{n_cases} frames <= 6 rows, <= 3 errors on one component", "failing_input": None}
+
+
+PolarsDropInvalidRows.bounded_standin = staticmethod(_polars_standin)
